@@ -19,5 +19,5 @@ def harnesses(tier):
     from contracts.coupling import coupling_harnesses
     hs_c = coupling_harnesses({"C02"}, tier, modes=("if",))
     from contracts.modules import transform_harness
-    from contracts.elementwise import SPECS, FUNCTIONAL
-    return hs_a + hs_m + hs_l + hs_c + [transform_harness(SPECS[n], m, {"C02"}) for n in FUNCTIONAL for m in ("if", "fi")]
+    from contracts.elementwise import SPECS, ROUNDTRIP
+    return hs_a + hs_m + hs_l + hs_c + [transform_harness(SPECS[n], m, {"C02"}) for n in ROUNDTRIP for m in ("if", "fi")]
